@@ -320,6 +320,21 @@ def plan(ctx, ncases_override):
                     k2 = dict(op=j, kind=kind, torn=rnd.randint(1, 150))
                     specs.append(dict(type="kill", scen=s, par=0, kills=[k1, k2], fclass="chain-%s:restart-op" % kind, chain=True))
                     cover["chains"] += 1
+    # ---- 2b. chains after a torn main file: the first kill tears the write of the main file (the restart must recover from <name>_old),
+    #          the restart is then killed inside its own recovery / first checkpoint, and a third process is judged
+    for s in seq:
+        dry = dry_run(ctx, s, 0); closes = [sn[1] for sn in dry["snaps"]]; ops = dry["ops"]
+        if len(closes) < 4: continue
+        mid = closes[len(closes) // 2]
+        w = [i for i in range(1, mid + 1) if ops[i - 1][2] in ("write", "writev") and ops[i - 1][3] == "main" and ops[i - 1][4] > 1]
+        if not w: continue
+        i1 = w[-1]
+        k1 = dict(op=i1, kind="torn", torn=max(1, ops[i1 - 1][4] // 2))
+        for j in range(1, (24 if thorough else 10) + 1):
+            for kind in ("before", "after", "torn"):
+                k2 = dict(op=j, kind=kind, torn=rnd.randint(1, 150))
+                specs.append(dict(type="kill", scen=s, par=0, kills=[k1, k2], fclass="chain-after-torn-main-%s:restart-op" % kind, chain=True))
+                cover["chains"] += 1
     # ---- 3. byte-level torn files ----
     pre = []
     for s in seq:
